@@ -141,7 +141,8 @@ func decodeFormat(img *internalbitmap.Image) (Level, Mask, error) {
 		if img.BinaryAt(w-i, 8) {
 			rawFormat2 |= 1 << i
 		}
-		if img.BinaryAt(8, w-i) {
+		if i < 7 && img.BinaryAt(8, w-i) {
+			// (8, w-7) is the dark module, not a format module.
 			rawFormat2 |= 1 << (14 - i)
 		}
 	}
